@@ -162,21 +162,23 @@ BLOCKS = ('NE/4', 'Lots 1 - 2, S/2NW/4', 'W/2, less and except the wellbore', 'T
           'NE/4 and all rights therein', 'SW/4 as aforesaid', 'E/2 lying west of the drain')
 
 
-def render(layout, n_tr, n_sec, tr_ix, sw_ix, b_ix, multi, sep_ix):
+def render(layout, n_tr, n_sec, tr_ix, sw_ix, b_ix, multi, sep_ix, aba=False):
     """(text, expected [(trs, desc)]) with real spellings"""
     seps = (', ', '\n', '; ')
     sep = seps[sep_ix]
     parts = []
     expected = []
+    if aba:
+        n_tr = 3                      # the first Twp/Rge comes back after another one (A, B, A)
     for g in range(n_tr):
-        n, m = 154 + g, 97 - g
+        n, m = (154 + g, 97 - g) if not (aba and g == 2) else (154, 97)
         sp = TR_SP[tr_ix]
         tr = sp.format(n=n, m=m)
         ns, ew = ('s', 'e') if ('S' in sp.replace('Sec', '') and 'E' in sp) else ('n', 'w')
         twprge = f'{n}{ns}{m}{ew}'
         secs = []
         for k in range(n_sec):
-            a = 10 * (g + 1) + k
+            a = 10 * (g + 1) + k if g < 2 else 30 + k
             if multi and k == 0:
                 word = {'Sec ': 'Secs ', 'Section ': 'Sections ', 'Sec. ': 'Secs. ', '§': '§'}[SEC_W[sw_ix]]
                 secs.append((word + f'{a} - {a + 2}', [a, a + 1, a + 2], BLOCKS[(b_ix + k) % len(BLOCKS)]))
@@ -219,8 +221,10 @@ def ob_api(ob):
     tr_set = ob.params.get('tr_set', range(len(TR_SP)))
     b_set = ob.params.get('b_set', tuple(range(len(BLOCKS))))
 
-    def target(ntr: bool, nsec: bool, tr: int, sw: int, b: int, multi: bool, sep: int):
-        args = (2 if ntr else 1, 2 if nsec else 1, choose(tr, tr_set), choose(sw, range(len(SEC_W))), choose(b, b_set), bool(multi), choose(sep, range(3)))
+    def target(ntr: bool, nsec: bool, tr: int, sw: int, b: int, multi: bool, sep: int, aba: bool):
+        if aba and not (ntr and not nsec and not multi):
+            return True               # the A, B, A shape is explored with one section group per Twp/Rge
+        args = (2 if ntr else 1, 2 if nsec else 1, choose(tr, tr_set), choose(sw, range(len(SEC_W))), choose(b, b_set), bool(multi), choose(sep, range(3)), bool(aba))
         text, exp = render(layout, *args)
         return render_verdict(text, exp, layout) is None
 
@@ -234,7 +238,7 @@ def ob_api(ob):
         out = []
         for v in vs[:3]:
             a = v['args']
-            text, exp = render(layout, 2 if a['ntr'] else 1, 2 if a['nsec'] else 1, trs[cl(a['tr'], len(trs))], cl(a['sw'], len(SEC_W)), b_set[cl(a['b'], len(b_set))], bool(a['multi']), cl(a['sep'], 3))
+            text, exp = render(layout, 2 if a['ntr'] else 1, 2 if a['nsec'] else 1, trs[cl(a['tr'], len(trs))], cl(a['sw'], len(SEC_W)), b_set[cl(a['b'], len(b_set))], bool(a['multi']), cl(a['sep'], 3), bool(a.get('aba')))
             out.append(violation(f'layout-api:{layout}', f'{text!r}: {render_verdict(text, exp, layout)}; {v["exc"]}', 'c01_text', {'text': text, 'expected': exp, 'layout': layout}))
         return out
     return from_explore(st, info, mk)
